@@ -750,7 +750,7 @@ End G.
 (* ================= the x86 instance ================= *)
 Lemma x86_backend_ok : backend_ok x86_backend.
 Proof.
-  split; cbn [x86_backend b_tcompare b_temporary_from_position].
+  split; cbn [x86_backend x86_backend_with b_tcompare b_temporary_from_position].
   - intros [x|x] [y|y]; cbn; try (split; congruence); rewrite N.compare_eq_iff; split; congruence.
   - intros [x|x] [y|y]; cbn; auto using N.compare_antisym.
   - intros [x|x] [y|y] [z|z]; cbn; try congruence; rewrite !N.compare_lt_iff; lia.
